@@ -128,6 +128,11 @@ def canon_of(db, r):
 
 def check_opaque(rep, db, f, inst):
     rule = "R-C20-opaque"
+    if (f.get("ret") or {}).get("ref"):
+        # "a bitwise COPY": a reference result aliases the operand - it changes when the opaque slot is reassigned and dangles
+        # when the operand was a temporary
+        rep.violation(rule, site(f) + " [by value]", "%s returns a reference (%s) to its operand instead of an independent value of the sibling wrapper type" % (f["sn"], (f["ret"] or {}).get("c")), f["loc"], inst)
+        return
     ps = Engine(db).run(f)
     src = THIS_OBJ if f["sn"] == "to_opaque" else ("pobj", f["params"][0]["n"])
     ret_c = (f.get("ret") or {}).get("c") or ""
